@@ -8,6 +8,8 @@ params (one generated program, see spec/BindObs.tla and spec/Bind.tla):
   flat      0 bind | 1 flat_bind (forms: 1 executor chain with the identity flat_map inserted at bindpos,
                                          2 bind(fn).with_flat_map(identity), 3 flat_bind(fn))
   kind      1 plain function | 2 functools.partial | 3 callable object | 4 function returning a future
+  derive_junk  0 | 1 | 2: after bind and after every later layer a variant is derived from the object (with_map; 2: also
+            with_retry) and thrown away
   subs      [{"script": "EV", "args": [...], "kwargs": {...}, "inner": "done" | "later"}]   one submission each
             script: outcome of fn per invocation for this submission (V value, E retryable exception, F other)
 
@@ -247,8 +249,16 @@ def build(p):
                     obj = obj.with_flat_map(lambda f: f)
             else:
                 obj = obj.flat_bind(fn)
+            def junk(o):
+                # a variant derived from the same object and thrown away: deriving never changes what it is derived from
+                if p.get("derive_junk"):
+                    o.with_map(lambda x: ("junk", x))
+                    o.with_retry(max_attempts=2, sleep=0.0, exception_base=H.UserError) if p["derive_junk"] == 2 else None
+
+            junk(obj)
             for i in range(bindpos, len(layers)):
                 obj = add_layer(obj, i + 1, layers[i], created, form != 1)
+                junk(obj)
             before = snap()
             futs = {}
             for s, spec in enumerate(subs):
